@@ -250,6 +250,9 @@ template <class M> static void do_write(const Case &c, std::ostream &o) {
     for (auto &l : c.klines) {
         auto toks = split_ws(l);
         if (toks.empty()) continue;
+        // faces / cells the kernel-script layer treats as out of contract (empty lists): added through the API directly
+        if (toks[0] == "rawF") { std::vector<HalfEdgeHandle> hs; for (size_t i = 1; i < toks.size(); ++i) hs.push_back(HalfEdgeHandle(std::stoi(toks[i]))); w.mesh.add_face(hs, false); continue; }
+        if (toks[0] == "rawC") { std::vector<HalfFaceHandle> hs; for (size_t i = 1; i < toks.size(); ++i) hs.push_back(HalfFaceHandle(std::stoi(toks[i]))); w.mesh.add_cell(hs, false); continue; }
         try { Result r = exec_line(w, toks); if (r.rejected) o << "# rejected: " << l << "\n"; } catch (Unresolvable &) { o << "# unresolvable: " << l << "\n"; }
     }
     auto &m = w.mesh;
@@ -374,6 +377,7 @@ int main(int argc, char **argv) {
         } else if (!open) continue;
         else if (t[0] == "hex") { if (t.size() > 1) cur.bytes += from_hex(t[1]); }
         else if (t[0] == "k") { cur.klines.push_back(line.substr(line.find('k') + 1)); }
+        else if (t[0] == "rawF" || t[0] == "rawC") { cur.klines.push_back(line); }
         else if (t[0] == "pos") { if (t.size() >= 5) cur.pos.push_back(t); }
         else if (t[0] == "prop") { if (t.size() >= 5) cur.props.push_back(t); }
         else if (t[0] == "end") { run_forked(cur, scratch, nofork, verbose); open = false; }
